@@ -57,11 +57,19 @@ def c01tags (m : Nat) (bs : Bytes) : String :=
   joinWith "," ((if split then ["split"] else []) ++ (if noFinalNL then ["nofinalnl"] else [])
     ++ (if empty then ["emptyline"] else []) ++ (if bs.isEmpty then ["emptyfile"] else []))
 
+/-- tie G: `readFile.read` as translated from the working tree on this run, on the same content: the lines it sends -/
+def c01translated (m : Nat) (bs : Bytes) : Option (List Bytes) :=
+  let ext : Go.Ext := { parseFloat := fun _ => (0, none), maxLineLength := m, fuel := bs.length + 2 }
+  match Gen.Reader.readFile.read ext {} () [] bs () () with
+  | .ok (f, none) => some f.rawLines
+  | _ => none
+
 def opC01Reader : List String → Res
   | [m, c] => match m.toNat?, unhex c with
     | some m, some bs =>
       let ls := readLinesF m bs
-      { m := joinWith "," (ls.zipIdx.map (fun (l, i) => s!"{i+1}:{hexOf l}")),
+      { m := if c01translated m bs != some ls then "TRANSLATED-READER-DIFFERS-FROM-MODEL" else
+          joinWith "," (ls.zipIdx.map (fun (l, i) => s!"{i+1}:{hexOf l}")),
         s := hexOf (insertNL m 0 bs), t := c01tags m bs }
     | _, _ => bad
   | _ => bad
